@@ -229,6 +229,12 @@ type c13In struct {
 	TLS     []int       `json:"tls,omitempty"`     // [version, cipher suite]: the request arrived over TLS (no client certificate)
 	Fields  [][2]string `json:"fields,omitempty"`  // responder's header fields
 	RBody   c13S        `json:"rbody,omitempty"`
+	// head: the same responder output under a second framing / connection segmentation; Conf: the output
+	// is the rendering of Fields with line end Eol followed by RBody
+	Recs2   []c13Rec `json:"recs2,omitempty"`
+	Chunks2 []int    `json:"chunks2,omitempty"`
+	Conf    bool     `json:"conf,omitempty"`
+	Eol     string   `json:"eol,omitempty"`
 }
 
 // ---------- in-memory connection ----------
@@ -1522,6 +1528,8 @@ func c13Run(in0 interface{}) Result {
 		return c13RunTogether(in)
 	case "after":
 		return c13RunAfter(in)
+	case "head":
+		return c13RunHead(in)
 	}
 	panic("bad kind " + in.Kind)
 }
@@ -2581,6 +2589,14 @@ func c13Gen(r *Rand, tier string) []interface{} {
 	for i := 0; i < naf; i++ {
 		extra = append(extra, c13GenAfter(r))
 	}
+	// the header block reader: one responder output under two framings (generated last)
+	nh := 120
+	if tier == "thorough" {
+		nh = 1200
+	}
+	for i := 0; i < nh; i++ {
+		extra = append(extra, c13GenHead(r, i))
+	}
 	var all []interface{}
 	e := 0
 	for i, c := range out {
@@ -2602,7 +2618,8 @@ func init() {
 			"(child) the same handler against Go's net/http/fcgi responder; " +
 			"(serve, preset+block) directives with a preset name (known / unknown) AND ext / split / index / except / env / root in the block, the directives as written handed to Coq next to the parsed rules; " +
 			"(overlap) 2-3 streamReaders read by one schedule, records larger than the read buffers; (together) 2-3 requests through the handler, request i+1 served completely during a body write of request i, own responder and byte pattern each; (after) two requests in sequence through the handler on one P: request A fails part-way (body reader error after K bytes, body cut by MaxBytesReader at K bytes, or the responder resets the connection while the body is sent), then request B is served and judged like a serve case of its own (the responder must receive exactly B's records). " +
-			"non-trivial = wire case with at least one pair or body byte, demux case with >= 2 records (runs expanded), serve case that reached the responder or the next handler or whose setup was refused, overlap case with >= 2 readers, together case whose requests all reached their responder; distinct = distinct Coq case term",
+			"(head) real FCGIClient.Request (bufio + textproto.ReadMIMEHeader + the Status rule) on ONE responder output — conforming heads with CRLF / bare LF line ends, repeated keys, any letter case, Status variants, Location without Status; and raw heads with continuation lines, missing colons, keys with spaces / invalid bytes, control bytes in values, leading whitespace, unterminated blocks, lines longer than bufio's buffer — under TWO framings (records of any size incl. empty ones in mid-stream, stderr records at every position, padding 0..255, END_REQUEST with any appStatus / protocolStatus / padding, trailing junk) and two connection segmentations. " +
+			"non-trivial = head case whose two framings differ, wire case with at least one pair or body byte, demux case with >= 2 records (runs expanded), serve case that reached the responder or the next handler or whose setup was refused, overlap case with >= 2 readers, together case whose requests all reached their responder; distinct = distinct Coq case term",
 		Gen: c13Gen,
 		Decode: func(raw json.RawMessage) (interface{}, error) {
 			in := &c13In{}
